@@ -63,7 +63,7 @@ def _run(node, tier, seed):
                 ctx.note("paths", len(tree.paths))
                 ctx.transition(len(tree.paths) + tree.stats["branch_points"])
                 if abs(tree.total - 1.0) > 1e-6:
-                    ctx.fail(node.kind, op, "tree", "sum_prob", dict(program=node.name, total=tree.total))
+                    ctx.fail(grammar.component_of(node), op, "tree", "sum_prob", dict(program=node.name, total=tree.total))
                 else:
                     ctx.note("sum_prob_checks")
                 for p in tree.paths:
@@ -98,9 +98,9 @@ def _run(node, tier, seed):
         same13 = len(l1) == len(l3) and all(close(np.asarray(a, dtype=np.float64), np.asarray(b, dtype=np.float64)) for a, b in zip(l1, l3))
         ctx.ev((node.name, "determinism"), nontrivial=False)
         if not same12:
-            ctx.fail(node.kind, "simulate", "same_key_twice", "nondeterministic", dict(program=node.name))
+            ctx.fail(grammar.component_of(node), "simulate", "same_key_twice", "nondeterministic", dict(program=node.name))
         if not same13:
-            ctx.fail(node.kind, "simulate", "eager_vs_jit", "nondeterministic", dict(program=node.name))
+            ctx.fail(grammar.component_of(node), "simulate", "eager_vs_jit", "nondeterministic", dict(program=node.name))
 
     return run
 
